@@ -47,6 +47,8 @@ structure Tables where
   descRaw : Bool
   toolOmitsDirectives : Bool
   assureOnce : Bool
+  dupMembersAccepted : Bool
+  opLineBeforeSkip : Bool
   inputNullTakesDefault : Bool
   dirLoopByVisited : Bool
   typeLookupFindsDirectives : Bool
